@@ -175,6 +175,23 @@ theorem C17_complete_adapt {cfg : Cfg} {f : Factory α} {isNone : Bool} {srcType
     exfalso
     exact fuel_suffices cfg f srcType adaptee target (by rw [hin])
 
+/-- Full strength without the determinism hypothesis.  False: a factory that answers by
+call ordinal can refuse every call `_adapt` actually makes although, tried first, it
+would have accepted. -/
+def C17_complete_any_factory : Prop :=
+  ∀ (cfg : Cfg) (f : Factory Unit) (srcType target : Nat), NoRaise f → Homogeneous cfg →
+    ((adaptInner cfg f srcType () target).1 = .notFound ↔
+      ¬ ∃ chain a, ValidChain cfg srcType target chain ∧ SucceedsFrom f 0 chain () a)
+
+theorem C17_complete_needs_determinism : ¬ C17_complete_any_factory := by
+  intro h
+  have h1 := (h twoCfg firstCallOnly 0 1
+    (by intro k o a e hf; simp only [firstCallOnly] at hf; split at hf <;> cases hf)
+    twoCfg_homogeneous).1 (by decide)
+  apply h1
+  refine ⟨[⟨1, 0, 1, 0⟩], (), ⟨by simp, ?_, by simp [OfferSimple], by decide⟩, ⟨(), by decide, rfl⟩⟩
+  exact ⟨⟨_, List.mem_cons_self, by simp⟩, by decide, trivial⟩
+
 example : (adaptInner chainCfg (refusing [0, 2]) 3 () 2).1 = .notFound := by decide
 example : (adaptInner chainCfg (refusing [0]) 3 () 2).1 ≠ .notFound := by decide
 
@@ -234,6 +251,12 @@ theorem C17_specific {cfg : Cfg} {f : Factory α} {srcType : Nat} {adaptee : α}
   · simp only [Prod.mk.injEq] at heq; omega
   · have : ¬ d' < d := hn
     omega
+
+-- the Sub offer (distance 0) wins over the Base offer (distance 1) registered before it
+example : adaptInner distCfg okFactory 1 () 2 = (.found [⟨1, 1, 2, 1⟩] (), [⟨1, .ok⟩]) := by decide
+example : OneStep distCfg okFactory 1 () 2 ⟨0, 0, 2, 0⟩ :=
+  ⟨⟨_, List.mem_cons_self, by simp⟩, by decide, by decide, ⟨(), rfl⟩⟩
+example : dist distCfg 1 0 = some 1 ∧ dist distCfg 1 1 = some 0 := by decide
 
 /-- Full strength of the second clause: at equal distance an offer registered for a
 strict subclass is preferred.  False (finding F14). -/
@@ -303,6 +326,10 @@ theorem C17_default {cfg : Cfg} {f : Factory α} {isNone : Bool} {srcType : Nat}
   subst hnf
   simp [adapt, supportsProtocol, hp, hin, noneResult]
 
+example : (adaptInner chainCfg (refusing [0, 2]) 3 () 2).1 = .notFound ∧
+    (adapt chainCfg (refusing [0, 2]) false 3 () 2 true).1 = .default ∧
+    (adapt chainCfg (refusing [0, 2]) false 3 () 2 false).1 = .error .adaptationError := by decide
+
 /-- …and the default comes back in no other situation (apart from the `None`
 adaptee of F15). -/
 theorem C17_default_only {cfg : Cfg} {f : Factory α} {isNone : Bool} {srcType : Nat} {adaptee : α}
@@ -356,6 +383,11 @@ theorem C17_supports (cfg : Cfg) (f : Factory α) (srcType : Nat) (adaptee : α)
       rcases hm with rfl | rfl <;>
         (simp only [validateTrait, validateAdapt, hp']
          cases (adapt cfg f false srcType adaptee target true).1 <;> simp)
+
+example : validateTrait 1 true false (chainCfg.provides 3 2) (adapt chainCfg (refusing [0]) false 3 () 2 true).1 =
+    .adapted [⟨1, 0, 1, 0⟩, ⟨2, 1, 2, 1⟩] () := by decide
+example : validateTrait 2 true false (chainCfg.provides 3 2) (adapt chainCfg (refusing [0, 2]) false 3 () 2 true).1 =
+    .default := by decide
 
 /-- The C function's own fallback (`validate_trait_adapt`, ctraits.c:3966-3982): when
 `adapt` gives `None`, an instance is still accepted as is; `Supports` keeps the
